@@ -27,7 +27,7 @@ func decisionView(e *testEnv, v *respView) string {
 		if pre := e.opts.Cookie.Name + "_"; e.opts.Cookie.CSRFPerRequest && strings.HasPrefix(name, pre) && strings.HasSuffix(name, "_csrf") {
 			name = pre + "*_csrf" // the per-request cookie name embeds a fresh state substring
 		}
-		cks = append(cks, fmt.Sprintf("%s|%s|%s|%v", name, c.Domain, c.Path, c.MaxAge < 0))
+		cks = append(cks, fmt.Sprintf("%s|%s|%s|%v|secure=%v|httponly=%v|samesite=%d", name, c.Domain, c.Path, c.MaxAge < 0, c.Secure, c.HttpOnly, c.SameSite))
 	}
 	sort.Strings(cks)
 	loc := v.Location
@@ -123,6 +123,14 @@ var fwdHeaderSets = []http.Header{
 	{"X-Forwarded-Uri": {"/app?allowed_groups=dev&allowed_emails=alice@example.com&allowed_email_domains=example.com"}},
 	{"X-Forwarded-Uri": {"/app?allowed_groups=nobody"}},
 	{"X-Forwarded-Uri": {"/admin/users?rd=https://app.example.com/foo/a.js"}},
+	// the scheme the front proxy was reached with, said to be plain http (in several spellings)
+	{"X-Forwarded-Proto": {"http"}},
+	{"X-Forwarded-Proto": {"HTTP"}, "X-Forwarded-Host": {"allowed.example.net"}},
+	// a client-IP header whose first entry is no address ("unknown", an obfuscated token) next to ANOTHER header naming a trusted one
+	{"X-Real-Ip": {"unknown"}, "X-Forwarded-For": {"10.1.2.3"}},
+	{"X-Forwarded-For": {"unknown, 10.1.2.3"}, "X-Real-Ip": {"10.1.2.3"}},
+	{"X-Real-Ip": {"_hidden"}, "X-Forwarded-For": {"10.1.2.3, 203.0.113.9"}, "Cf-Connecting-Ip": {"10.1.2.3"}},
+	{"Cf-Connecting-Ip": {"unknown"}, "X-Forwarded-For": {"10.1.2.3"}, "X-Real-Ip": {"10.1.2.3"}},
 }
 
 // fwdRandomSets: header sets drawn from every forwarding-style header name in common use (also ones the proxy
@@ -165,6 +173,9 @@ func init() {
 			x := base
 			x.ForceHTTPS = true
 			cfgs = append(cfgs, x)
+			xs := base
+			xs.CookieSecure, xs.CookieHTTPOnly, xs.CookieSameSite = true, true, "lax" // (attributes a front proxy's scheme must not take away)
+			cfgs = append(cfgs, xs)
 			y := base
 			y.Redis = true
 			y.SkipProviderButton = true
@@ -291,10 +302,40 @@ func init() {
 					}
 				}
 			}
+			// a login that COMPLETES: the callback's answer (where the user lands, which cookies are set and deleted, with which
+			// attributes) is the same whatever forwarding headers the callback request carries
+			if !cfg.ReverseProxy && !cfg.ForceHTTPS {
+				finish := func(hs http.Header) (string, bool) {
+					nb := newBrowser()
+					_, l := e.startLogin(nb, "/landing?x=1")
+					cb, _, err := e.idp.authorize(l, u)
+					if err != nil {
+						return "", false
+					}
+					pu, _ := url.Parse(cb)
+					v := e.do(reqSpec{Target: pu.RequestURI(), Cookie: nb.cookieHeader(), Header: hs})
+					return decisionView(e, v), v.Status == 302
+				}
+				if view0, ok := finish(nil); ok {
+					for hi, hs := range fwdHeaderSets {
+						if hi%2 == 1 && c.scale == 1 && hi > 4 {
+							continue
+						}
+						view1, _ := finish(hs)
+						c.count("c16:completed-login-pair")
+						if view0 != view1 {
+							c.violation("C16", "forwarding headers on the callback request changed the answer of a login that completes, although reverse-proxy mode is off", map[string]interface{}{
+								"headers": hs, "without": view0, "with": view1, "cfg": fmt.Sprintf("%+v", cfg)})
+						}
+					}
+				} else {
+					c.violation("HARNESS", "fwd-pairs: clean login did not complete: "+view0, nil)
+				}
+			}
 			e.close()
 		}
 		cfgBoolSpellings(c, "C16", map[string]func(*options.Options) bool{"reverse-proxy": func(o *options.Options) bool { return o.ReverseProxy }})
-		c.close([]string{"c16:off-pair", "c16:off-same", "c16:on-pair", "c16:on-differs", "kind:upstream", "kind:idpRedirect", "kind:redirect"})
+		c.close([]string{"c16:completed-login-pair", "c16:off-pair", "c16:off-same", "c16:on-pair", "c16:on-differs", "kind:upstream", "kind:idpRedirect", "kind:redirect"})
 	})
 
 	registerSuite("signout", func(c *suiteCtx) {
